@@ -27,6 +27,33 @@ def ds_model(scenario, depth, maxlen, alphabet, s0=(), t0=(), simulate=None):
                        + (f"/simulate:{simulate}" if simulate else ""))
 
 
+def run_dimset_traces(out, prop, tier):
+    """direction B: recorded programs validated by TLC (spec/trace/Trace_DimSets.tla).  For C13 only the clause about arrays
+    built from the registers counts."""
+    seed = out.seed
+    # ---- direction B: recorded programs validated by TLC (spec/trace/Trace_DimSets.tla)
+    from . import trace_dimsets as td
+    ntraces, nsteps = (60, 30) if tier == "quick" else (2000, 40)
+    batch = td.record_batch(ntraces, nsteps, seed)
+    acc, rej, res = td.validate_batch(batch, workers=4 if tier == "quick" else 8)
+    out.states += res.distinct
+    out.transitions += res.generated
+    out.models.append({"model": "Trace_DimSets", "states": res.distinct, "generated": res.generated, "traces": ntraces,
+                       "accepted": len(acc), "wall_s": round(res.wall, 2)})
+    tbad = []
+    for tid, (pos, clause) in rej.items():
+        if prop != "C14" and ("{" not in clause or prop not in clause[clause.index("{"):]):
+            continue
+        tr = batch["traces"][tid - 1]
+        ev = tr["events"][pos - 1]
+        tbad.append(({"alphabet": batch["alphabet"], "trace": {"init": tr["init"], "events": tr["events"][:pos]}},
+                     [f"recorded program rejected by the specification at event {pos} ({ev['op']}, logged outcome {ev['outcome']}): {clause}"]))
+    out.judge(tbad, "dimsets_trace", lambda v, p: {"engine": "dimsets_trace", "op": v["trace"]["events"][-1]["op"], "clause": p[0].split(": ")[-1][:40]})
+    out.traces_validated += ntraces
+    out.extra["recorded_programs_validated_by_TLC"] = ntraces
+    out.extra["recorded_events"] = sum(len(t["events"]) for t in batch["traces"])
+
+
 def check_C14(tier, seed):
     out = Outcome("C14", tier, seed)
     A4 = ["A", "B", "C", "A2"]
@@ -65,25 +92,7 @@ def check_C14(tier, seed):
         for s in v["hist"]:
             k = s["op"] + ("/inplace" if s["inplace"] else "") + ("/error" if s["outcome"] == "error" else "")
             ops[k] = ops.get(k, 0) + 1
-    # ---- direction B: recorded programs validated by TLC (spec/trace/Trace_DimSets.tla)
-    from . import trace_dimsets as td
-    ntraces, nsteps = (60, 30) if tier == "quick" else (2000, 40)
-    batch = td.record_batch(ntraces, nsteps, seed)
-    acc, rej, res = td.validate_batch(batch, workers=4 if tier == "quick" else 8)
-    out.states += res.distinct
-    out.transitions += res.generated
-    out.models.append({"model": "Trace_DimSets", "states": res.distinct, "generated": res.generated, "traces": ntraces,
-                       "accepted": len(acc), "wall_s": round(res.wall, 2)})
-    tbad = []
-    for tid, (pos, clause) in rej.items():
-        tr = batch["traces"][tid - 1]
-        ev = tr["events"][pos - 1]
-        tbad.append(({"alphabet": batch["alphabet"], "trace": {"init": tr["init"], "events": tr["events"][:pos]}},
-                     [f"recorded program rejected by the specification at event {pos} ({ev['op']}, logged outcome {ev['outcome']}): {clause}"]))
-    out.judge(tbad, "dimsets_trace", lambda v, p: {"engine": "dimsets_trace", "op": v["trace"]["events"][-1]["op"], "clause": p[0].split(": ")[-1][:40]})
-    out.traces_validated += ntraces
-    out.extra["recorded_programs_validated_by_TLC"] = ntraces
-    out.extra["recorded_events"] = sum(len(t["events"]) for t in batch["traces"])
+    run_dimset_traces(out, "C14", tier)
     out.exhaustive = True
     out.assumptions += [
         "direction B: seeded random programs of 30 (thorough 40) calls over four registers and an alphabet of ten dimensions on seven letters "
